@@ -158,7 +158,7 @@ static const InFmt infmts[] = {
 static const size_t n_infmts = sizeof(infmts) / sizeof(*infmts);
 static const size_t n_full_infmts = 26;	/* the first entries */
 
-static inline std::string default_value(const Civ &c, int kind, Rng &r)
+static inline std::string default_value(const Civ &c, int kind, Rng &r, bool sed_forms = false)
 {
 	/* what the format-less parser takes */
 	char b[64];
@@ -175,13 +175,13 @@ static inline std::string default_value(const Civ &c, int kind, Rng &r)
 		return fmt_value("%F", c);
 	if (k < 8)
 		return fmt_value("%G-W%V-0%u", c);
-	if (k < 9)
-		return fmt_value("%Y-%j", c);
+	if (k < 9 && !sed_forms)
+		return fmt_value("%Y-%j", c);	/* accepted as an argument, not looked for inside a line */
 	return fmt_value("%Y-%m-%c-%w", c);
 }
 
 /* output formats: random sequences over the specifier alphabet */
-static inline std::string rand_ofmt(Rng &r, int kind, bool zone, bool time_fields_only = false)
+static inline std::string rand_ofmt(Rng &r, int kind, bool zone, bool time_fields_only = false, bool one_line = false)
 {
 	static const char *dspec[] = {"%F", "%Y", "%m", "%d", "%j", "%b", "%B", "%a", "%A", "%y", "%G", "%V", "%u", "%c", "%w", "%U", "%W", "%C",
 				      "%q", "%Q", "%h", "%D", "%g", "%Od", "%Om", "%dth", "%_d", "%-d", "%-m", "%rY", "%G-W%V-%u", "%Y-%m-%c-%w",
@@ -202,8 +202,10 @@ static inline std::string rand_ofmt(Rng &r, int kind, bool zone, bool time_field
 			f += tspec[r.below(nt)];
 		else
 			f += dspec[r.below(nd)];
-		if (i + 1 < n || r.chance(1, 4))
-			f += lits[r.below(nl)];
+		if (i + 1 < n || r.chance(1, 4)) {
+			const char *l = lits[r.below(nl)];
+			f += one_line && !strcmp(l, "%n") ? " " : l;
+		}
 	}
 	if (zone && r.chance(2, 3))
 		f += "%Z";
@@ -217,7 +219,7 @@ static const char *const inv_zones[] = {"Europe/Berlin", "America/New_York", "As
 					"Asia/Tehran", "Antarctica/Troll", "Pacific/Kiritimati", "America/Caracas", "Europe/Moscow"};
 static const size_t n_inv_zones = sizeof(inv_zones) / sizeof(*inv_zones);
 
-static const char *const durs_date[] = {"+1d", "-1d", "+1mo", "-1mo", "+1y", "-1y", "+3w", "-2w", "+2d", "+100d", "+5bd", "+2bd", "+1mo1d", "-1y2mo",
+static const char *const durs_date[] = {"+1d", "-1d", "+1mo", "-1mo", "+1y", "-1y", "+3w", "-2w", "+2d", "+100d", "+1mo1d", "-1y2mo",
 					"+0d", "+12mo", "+7d", "-30d", "+1w1d", "+400d", "+4y", "-11mo"};
 static const char *const durs_time[] = {"+1h", "-1h", "+12h", "-90m", "+3600s", "+86400s", "+36h", "-1s", "+59m", "+1h30m", "+25h", "-1440m"};
 static const char *const rnd_date[] = {"Mon", "Tue", "Sat", "Sun", "-Fri", "1", "15", "31", "-1", "-31", "Feb", "Dec", "-Jan", "1d", "Jul", "28"};
@@ -232,7 +234,7 @@ struct Inv {
 	int kind = K_DATE;
 	std::vector<std::string> ifmts;	/* the -i formats values are drawn from; empty = default parser */
 	size_t pos_at = 0;		/* index into fixed where the operands (durations, rounding targets) begin */
-	bool many_if = false, empty_mode = false;
+	bool many_if = false, empty_mode = false, sed_default_forms = false, no_junk = false;
 	bool full = true;		/* every value determines all fields */
 	bool has_base = false;
 	bool zone = false;
@@ -252,12 +254,12 @@ static inline std::string inv_value(Rng &r, const Inv &iv)
 		c.y = (int)r.range(2040, 2086);		/* transition index above 255 in Asia/Gaza */
 	else if (k < 10)
 		c.y = 1969, c.m = 7, c.d = 20;
-	if (k >= 96) {
+	if (k >= 96 && !iv.no_junk) {
 		static const char *junk[] = {"foo", "", "2012-13-45", "99", "2012-02-30", "24:00:00", "T", "2012-01-01T", "0000-00-00", " ", "1e9", "31/02/2012", "Feb 30, 2012"};
 		return junk[r.below(sizeof(junk) / sizeof(*junk))];
 	}
 	if (iv.ifmts.empty())
-		return default_value(c, iv.kind, r);
+		return default_value(c, iv.kind, r, iv.sed_default_forms);
 	const std::string &f = iv.ifmts[r.below(iv.ifmts.size())];
 	if (f == "%s" && c.y < 1970)
 		c.y += 100;
@@ -313,7 +315,9 @@ struct GenOpt {
 	int force_mode = -1;		/* 0 args, 1 stdin, 2 sed */
 	size_t max_if = 3;		/* at most this many -i formats (0: default parser only) */
 	bool allow_sed = true;
-	bool allow_many_if = true;	/* now and then 8..40 -i formats (needle tables are sized from the count) */
+	bool allow_many_if = true;
+	bool one_line = false;		/* no %n in output formats (sed mode: one output line per input line) */
+	bool sed_default_forms = false;	/* format-less values only in the forms the sed-mode finder looks for */	/* now and then 8..40 -i formats (needle tables are sized from the count) */
 };
 
 static inline Inv rand_inv(Rng &r, const GenOpt &go)
@@ -321,6 +325,8 @@ static inline Inv rand_inv(Rng &r, const GenOpt &go)
 	Inv iv;
 	static const char *tools[] = {"dconv", "dconv", "dadd", "dround", "ddiff", "dgrep"};
 	iv.tool = go.tool ? go.tool : tools[r.below(6)];
+	iv.sed_default_forms = go.sed_default_forms;
+	iv.no_junk = go.sed_default_forms;
 	const std::string &t = iv.tool;
 	/* kind and input formats */
 	unsigned kk = (unsigned)r.below(100);
@@ -432,7 +438,7 @@ static inline Inv rand_inv(Rng &r, const GenOpt &go)
 		if (fk < 60) {
 			iv.fixed.push_back(r.chance(1, 2) ? "-f" : "--format");
 			/* date fields, epoch or zone output of a bare time borrow the date: only with --base */
-			std::string of = rand_ofmt(r, iv.kind, iv.zone, timeonly && !iv.has_base && go.want_full);
+			std::string of = rand_ofmt(r, iv.kind, iv.zone, timeonly && !iv.has_base && go.want_full, go.one_line);
 			iv.fixed.push_back(of);
 		} else if (fk < 68 && iv.kind != K_TIME) {
 			iv.fixed.push_back("-f");
